@@ -24,7 +24,7 @@ import (
 // also performs a real gws-to-gws handshake over the in-memory pipe and requires the parameters
 // held by both connections and the two headers on the wire to equal the pipeline's.
 func init() {
-	register(&Suite{Name: "nego", Gen: genNego, Exec: execNego})
+	register(&Suite{Name: "nego", Gen: genNego, Exec: execNego, Isolated: true})
 }
 
 func parsePD(s string) gws.PermessageDeflate {
